@@ -115,6 +115,11 @@ impl Sanitizer {
                 .to_string();
         }
 
+        // cutting a mixed segment can leave an all-digit head ("00a" -> "00")
+        if self.max_length.is_some() && !self.keep_zeros {
+            result = self.remove_leading_zeros(&result);
+        }
+
         result
     }
 
